@@ -393,7 +393,7 @@ func checkGenGo(r *Report, v *apiVersion) {
 	r.Programs++
 	pkg := v.goDesc.GetPackage()
 	structs := map[string]*ast.StructType{}
-	consts := map[string]string{} // name -> "Type = value"
+	consts := map[string]string{}              // name -> "Type = value"
 	enumMaps := map[string]map[string]string{} // X_name / X_value -> key -> value (as source text)
 	constPos := map[string]token.Pos{}
 	for _, d := range v.pbFile.Decls {
